@@ -115,7 +115,8 @@ def gen_index(rng):
     if r < 0.6:
         return ["neglen", rng.choice([-2, -1, 0, 1])]
     return rng.choice([0, 1, -1, -2, 5, 9, 10, 11, -10, -11,
-                       rng.randrange(-50, 50)])
+                       rng.randrange(-50, 50), rng.randrange(-50, 50),
+                       10 ** 18, -10 ** 18])
 
 
 def gen_bound(rng):
@@ -205,7 +206,7 @@ def generate(cls, rng):
             else:
                 ops.append(["q", rng.choice([0, 1, 2]), q])
     return dict(target=target, warm=rng.choice([0, 1, 5, 9, 10, 11, 15, 25]),
-                ops=ops, fwd0=fwd0)
+                ops=ops, fwd0=fwd0, aware=rng.random() < 0.08)
 
 
 def cache_state(t):
@@ -222,6 +223,11 @@ def execute(cls, scenario, ctx):
     tspec = scenario["target"]
     fwd0 = scenario.get("fwd0", 0) % 7
     calendar.setfirstweekday(fwd0)
+    if scenario.get("aware"):
+        # timezone-aware start, listed dates and query arguments, in three
+        # different UTC offsets
+        RL.AWARE_OFFSETS = [0, -360, 720]
+        ctx.probe("aware_datetimes")
     try:
         L = RL.model_list(tspec)
     except ValueError as e:
